@@ -830,13 +830,13 @@ class RankEnv:
 _DEFAULT_RANKS = RankEnv()
 
 
-def canon_idx(idx) -> Tuple[T, ...]:
+def canon_idx(idx, keep_slices=False) -> Tuple[T, ...]:
     """One spelling for a subscript tuple: `a[(r, c)]` is `a[r, c]`, and `a[t[0], t[1]]` with t unpacked into exactly these
     components is `a[t]` (the reference spells the scatter `square[table] = vector`)."""
     idx = tuple(idx)
     if len(idx) == 1 and isinstance(idx[0], Tup) and len(idx[0].elems) >= 1:
         idx = tuple(idx[0].elems)
-    while len(idx) >= 2 and isinstance(idx[-1], Slc) and idx[-1].lo is None and idx[-1].hi is None and idx[-1].step is None:
+    while not keep_slices and len(idx) >= 2 and isinstance(idx[-1], Slc) and idx[-1].lo is None and idx[-1].hi is None and idx[-1].step is None:
         idx = idx[:-1]                    # a[i, :] is a[i]: trailing full slices select everything that is left
     if len(idx) >= 2 and all(isinstance(i, Idx) and len(i.idx) == 1 and isinstance(i.idx[0], Poly) for i in idx):
         b0 = idx[0].base
@@ -957,6 +957,10 @@ LEADING_PARAMS = {
 }
 
 
+_NP_COMPARISONS = {"numpy.less": "<", "numpy.greater": ">", "numpy.less_equal": "<=", "numpy.greater_equal": ">=",
+                   "numpy.equal": "==", "numpy.not_equal": "!="}
+
+
 def _is_default_float(t) -> bool:
     t = as_term(t)
     if isinstance(t, Sym):
@@ -975,6 +979,25 @@ def make_app(fn: str, args, kw=None) -> T:
             args.append(as_term(kw.pop(lead[len(args)])))
     if fn in ("numpy.square",) and len(args) == 1:
         return mul(args[0], args[0])
+    if fn in _NP_COMPARISONS and len(args) == 2 and not kw:
+        return compare(_NP_COMPARISONS[fn], args[0], args[1])          # np.less(d, 0) is d < 0
+    if fn == "builtins.slice" and 1 <= len(args) <= 3 and not kw:
+        none = lambda t_: None if (isinstance(t_, Lit) and t_.value is None) else t_
+        if len(args) == 1:
+            return Slc(None, none(args[0]), None)
+        return Slc(none(args[0]), none(args[1]), none(args[2]) if len(args) == 3 else None)
+    if "axis" in kw and isinstance(kw["axis"], Lit) and kw["axis"].value is None and fn in ("numpy.mean", "numpy.sum", "numpy.median", "numpy.max", "numpy.min",
+                                                                                             "numpy.argmin", "numpy.argmax", "numpy.std", "numpy.var"):
+        kw.pop("axis")                  # the default, spelled out
+    if fn == "numpy.power" and len(args) == 2 and not kw and isinstance(args[1], Poly) and args[1].const_value() is not None:
+        e_ = args[1].const_value()
+        if e_.denominator == 1 and 0 <= e_ <= 6:
+            return power(args[0], int(e_))
+        if e_ == Fraction(1, 2):
+            return sqrt(args[0])
+    if fn == "numpy.full" and len(args) == 2 and set(kw) <= {"dtype"} and isinstance(args[1], Poly) and args[1].const_value() in (0, 1):
+        # np.full(shape, 0.0) is np.zeros(shape), np.full(shape, 1.0) is np.ones(shape)
+        return make_app("numpy.zeros" if args[1].const_value() == 0 else "numpy.ones", [args[0]], kw)
     if set(kw) == {"out"} and fn in ("numpy.negative", "numpy.add", "numpy.subtract", "numpy.multiply"):
         kw = {}       # the *value* of the call is the same with or without an output buffer (the write is the ownership analysis' business)
     if fn in ("numpy.negative",) and len(args) == 1 and not kw:
@@ -1053,6 +1076,10 @@ def _zip_like(fn: str, args) -> Optional[T]:
         if isinstance(inner, Comp) and not inner.conds and isinstance(inner.elt, Tup):
             return Tup([Comp(e, inner.var, inner.iter, [], "list") for e in inner.elt.elems])
         return None
+    if fn == "builtins.map" and len(args) == 2 and isinstance(args[0], Sym) and args[0].name in ("builtins.list", "builtins.tuple") \
+            and isinstance(args[1], Tup) and all(isinstance(c, Comp) for c in args[1].elems):
+        # map(list, zip(*pairs)): the component sequences themselves, as lists
+        return Tup([make_app(args[0].name, [c]) for c in args[1].elems])
     f = None
     seqs = list(args)
     if fn == "builtins.map":
